@@ -221,6 +221,12 @@ def run(chk):
         if i < 2:
             chk.sample("\n".join(L[:14]))
     sess.close()
+    # build-system level: cancellation through BuildSystemFrontend (command skip state, same frontend reused, new process over the same database)
+    try:
+        import props.c05bs as c05bs
+        c05bs.bs_cancel_part(chk)
+    except ImportError:
+        chk.notes["bs_cancel_part"] = "props/c05bs.py not present: build-system level cancellation not exercised"
     return chk.finish(level="proof",
                       rule="one evaluation = one build of a history containing a cancelled build, judged by the property's oracles on the real engine; non-trivial = history in which the cancellation really interrupted the build",
                       extra=dict(cancel_points=dist, note="the cancelled build itself is schedule dependent and is judged by oracles only; the specification engine (Cancel.v) is tied through its proved consequences (flags, persisted rows, later builds clean) which are exactly the oracles applied here"),
